@@ -70,6 +70,10 @@ def _gate_edges(nv):
             continue
         e = fn.switch_expr(b)
         f_t, t_t = be
+        # (`if !trusted` tests the same thing with the arms exchanged)
+        while e is not None and e.strip().kind == 'unop' and e.strip().op == 'Not':
+            e = e.strip().a
+            f_t, t_t = t_t, f_t
         # TRUSTED_PATHS.contains_key(&dev)
         if is_call(e, 'BTreeMap::contains_key'):
             c = e.strip()
